@@ -26,6 +26,12 @@
 (*   sdur[j]  duration of the co_shutdown() handler (-1 = never returns)   *)
 (*   cdur[j]  duration of the clean-up a cancelled body performs           *)
 (*   scdur[j] duration of the clean-up a cancelled co_shutdown() performs  *)
+(*   cwait[j] 0, or a sibling whose cancellation (or end) the clean-up of  *)
+(*            the cancelled body of j waits for (e.g. a lock that sibling  *)
+(*            holds): _tidy_tasks cancels every pending task before it     *)
+(*            awaits any of them, and such jobs rely on it                 *)
+(*   preshut  shutdown() was called on the whole tree before the run: every*)
+(*            job has had its co_shutdown(), every scheduler remembers it  *)
 (*   pure     the top is a PureScheduler (never raises)                    *)
 (*   ucancel  instant at which the caller cancels the task running the     *)
 (*            top-level co_run() (-1 = never)                              *)
@@ -51,7 +57,8 @@ CfgOf(J) ==
     req |-> [i \in 1..J.n |-> RangeOf(J.req[i])],
     crit |-> J.crit, forever |-> J.forever, win |-> J.win, tmo |-> J.tmo,
     stmo |-> J.stmo, dur |-> J.dur, out |-> J.out, sdur |-> J.sdur,
-    cdur |-> J.cdur, scdur |-> J.scdur, horizon |-> J.horizon, ucancel |-> J.ucancel ]
+    cdur |-> J.cdur, scdur |-> J.scdur, horizon |-> J.horizon, ucancel |-> J.ucancel,
+    cwait |-> J.cwait, preshut |-> J.preshut ]
 
 Min(T) == CHOOSE t \in T : \A u \in T : t <= u
 Max(T) == CHOOSE t \in T : \A u \in T : t >= u
@@ -78,7 +85,8 @@ Max(T) == CHOOSE t \in T : \A u \in T : t >= u
 (*               a job: its cancelled handler is still unwinding, scdur)   *)
 (*   relayed[s] the co_shutdown() sent to s has begun executing            *)
 (*   did[s]     _did_shutdown                                              *)
-(*   sres[s]    none | true | false   value of s's broadcasting co_shutdown*)
+(*   sres[s]    none | true | false | skip   value of s's broadcasting     *)
+(*              co_shutdown(); skip = it had shut down already (None)      *)
 (*   ts, tsc, sdl  handler start / handler cancel time; shutdown deadline  *)
 (*              of a broadcast                                             *)
 (*   ucf        the caller's cancellation of the top-level run has fired   *)
@@ -112,9 +120,9 @@ InitS(C) ==
     tsc |-> [n \in Nodes(C) |-> -1],
     sdl |-> [n \in Nodes(C) |-> -1],
     sres |-> [n \in Nodes(C) |-> "none"],
-    did |-> [n \in Nodes(C) |-> FALSE],
+    did |-> [n \in Nodes(C) |-> C.preshut /\ IsSched(C, n)],
     nstart |-> [n \in Nodes(C) |-> IF n = Root THEN 1 ELSE 0],
-    nshut |-> [n \in Nodes(C) |-> 0] ]
+    nshut |-> [n \in Nodes(C) |-> IF C.preshut /\ n # Root THEN 1 ELSE 0] ]
 
 -----------------------------------------------------------------------------
 (* task.cancel() on the tasks of the nodes in R (one tree level).          *)
@@ -186,7 +194,9 @@ JobEndF(C, X, j, o) ==
             !.res[j] = IF o = "ok" THEN <<"ret", j>> ELSE <<"exc", j>>]
 
 (* CancelDone(j): a cancelled body has finished its clean-up               *)
-CancelDoneG(C, X, j) == IsJob(C, j) /\ X.st[j] = "cancelling" /\ X.now >= X.tc[j] + C.cdur[j]
+Released(C, X, j)    == IF C.cwait[j] = 0 THEN TRUE ELSE X.st[C.cwait[j]] \in {"cancelling", "ok", "exc", "cancelled"}
+CancelDoneG(C, X, j) == /\ IsJob(C, j) /\ X.st[j] = "cancelling" /\ X.now >= X.tc[j] + C.cdur[j]
+                        /\ Released(C, X, j)
 CancelDoneF(C, X, j) == [X EXCEPT !.st[j] = "cancelled", !.te[j] = X.now]
 
 (* UserCancel: the caller cancels the task that runs the top-level co_run()  *)
@@ -232,14 +242,29 @@ CancelPropF(C, X, s) ==
   ELSE [CancelHandlers(C, X, {k \in Kids(C, s) : X.sh[k] = "running"})
           EXCEPT !.creq[s] = FALSE, !.cause[s] = "cancelled"]
 
+(* the end of s's own run: verdict from the cause, crit[s] and pure        *)
+EndRunF(C, X, s, k) ==
+  LET X1 == [X EXCEPT !.pc[s] = "over", !.te[s] = X.now]
+  IN IF X.cause[s] = "cancelled" THEN [X1 EXCEPT !.st[s] = "cancelled"]
+     ELSE IF X.cause[s] = "success" THEN [X1 EXCEPT !.st[s] = "ok", !.res[s] = <<"true", 0>>]
+     ELSE IF ~Raising(C, s) THEN [X1 EXCEPT !.st[s] = "ok", !.res[s] = <<"false", 0>>]
+     ELSE IF X.cause[s] = "timeout" THEN [X1 EXCEPT !.st[s] = "exc", !.res[s] = <<"exc", 0 - s>>]
+     ELSE [X1 EXCEPT !.st[s] = "exc", !.res[s] = X.res[k]]
+
 (* TidyDone(s): every cancelled child is over.  A cancelled run ends here  *)
-(* (CancelledError leaves co_run); otherwise co_shutdown() begins.         *)
+(* (CancelledError leaves co_run); otherwise co_shutdown() begins: it      *)
+(* returns at once (sres = "skip"; same task step as the end of the run)   *)
+(* when the scheduler has shut down before                                 *)
 TidyDoneG(C, X, s) == /\ IsSched(C, s) /\ X.st[s] = "running" /\ X.pc[s] = "tidy"
                       /\ \A k \in Kids(C, s) : ~Live(X, k)
-TidyDoneF(C, X, s) ==
+TidyDoneF(C, X, s, k) ==
   IF X.cause[s] = "cancelled"
   THEN [X EXCEPT !.st[s] = "cancelled", !.pc[s] = "over", !.te[s] = X.now]
+  ELSE IF X.did[s] THEN EndRunF(C, [X EXCEPT !.sres[s] = "skip"], s, k)
   ELSE Broadcast(C, [X EXCEPT !.pc[s] = "shut"], s)
+(* the critical job whose exception a skipped shutdown lets through at once   *)
+TidyKs(C, X, s) == IF X.did[s] /\ X.cause[s] = "critical" /\ Raising(C, s)
+                   THEN {k \in Kids(C, s) : C.crit[k] /\ X.st[k] = "exc"} ELSE {s}
 
 (* HandlerEnd(j): a job's co_shutdown() returns                            *)
 HandlerEndG(C, X, j) == /\ IsJob(C, j) /\ X.sh[j] = "running"
@@ -276,14 +301,6 @@ ShutTimerLive(C, X, s) ==
   /\ (OwnShut(C, X, s) => X.cause[s] # "cancelled")
   /\ (AsMember(C, X, s) => X.sh[s] = "running")
 
-(* the end of s's own run: verdict from the cause, crit[s] and pure        *)
-EndRunF(C, X, s, k) ==
-  LET X1 == [X EXCEPT !.pc[s] = "over", !.te[s] = X.now]
-  IN IF X.cause[s] = "cancelled" THEN [X1 EXCEPT !.st[s] = "cancelled"]
-     ELSE IF X.cause[s] = "success" THEN [X1 EXCEPT !.st[s] = "ok", !.res[s] = <<"true", 0>>]
-     ELSE IF ~Raising(C, s) THEN [X1 EXCEPT !.st[s] = "ok", !.res[s] = <<"false", 0>>]
-     ELSE IF X.cause[s] = "timeout" THEN [X1 EXCEPT !.st[s] = "exc", !.res[s] = <<"exc", 0 - s>>]
-     ELSE [X1 EXCEPT !.st[s] = "exc", !.res[s] = X.res[k]]
 Culprits(C, X, s) == IF X.cause[s] = "critical" /\ Raising(C, s) /\ OwnShut(C, X, s)
                      THEN {k \in Kids(C, s) : C.crit[k] /\ X.st[k] = "exc"} ELSE {s}
 
@@ -355,7 +372,8 @@ Acts(C, X) ==
                  s \in {x \in Scheds(C) : MainG(C, X, x)}}
   \cup {Act("Timeout", s) : s \in {x \in Scheds(C) : TimeoutG(C, X, x)}}
   \cup {Act("CancelProp", s) : s \in {x \in Scheds(C) : CancelPropG(C, X, x)}}
-  \cup {Act("TidyDone", s) : s \in {x \in Scheds(C) : TidyDoneG(C, X, x)}}
+  \cup UNION {{<<"TidyDone", s, {}, "-", k>> : k \in TidyKs(C, X, s)} :
+                 s \in {x \in Scheds(C) : TidyDoneG(C, X, x)}}
   \cup {Act("Relay", s) : s \in {x \in Scheds(C) : RelayG(C, X, x)}}
   \cup UNION {{<<"ShutJoin", s, {}, "-", k>> : k \in Culprits(C, X, s)} :
                  s \in {x \in Scheds(C) : ShutJoinG(C, X, x)}}
@@ -373,7 +391,7 @@ Apply(C, X, a) ==
     [] a[1] = "Process"    -> ProcessF(C, X, a[2], a[3])
     [] a[1] = "Timeout"    -> TimeoutF(C, X, a[2])
     [] a[1] = "CancelProp" -> CancelPropF(C, X, a[2])
-    [] a[1] = "TidyDone"   -> TidyDoneF(C, X, a[2])
+    [] a[1] = "TidyDone"   -> TidyDoneF(C, X, a[2], a[5])
     [] a[1] = "Relay"      -> RelayF(C, X, a[2])
     [] a[1] = "ShutJoin"   -> ShutJoinF(C, X, a[2], a[5])
     [] a[1] = "ShutExpire" -> ShutExpireF(C, X, a[2])
@@ -393,7 +411,7 @@ HandlerCancelDone(j) == HandlerCancelDoneG(cfg, S, j) /\ S' = HandlerCancelDoneF
 Process(s)    == \E D \in SUBSET Unseen(cfg, S, s) : ProcessG(cfg, S, s, D) /\ S' = ProcessF(cfg, S, s, D)
 Timeout(s)    == TimeoutG(cfg, S, s) /\ S' = TimeoutF(cfg, S, s)
 CancelProp(s) == CancelPropG(cfg, S, s) /\ S' = CancelPropF(cfg, S, s)
-TidyDone(s)   == TidyDoneG(cfg, S, s) /\ S' = TidyDoneF(cfg, S, s)
+TidyDone(s)   == TidyDoneG(cfg, S, s) /\ \E k \in TidyKs(cfg, S, s) : S' = TidyDoneF(cfg, S, s, k)
 Relay(s)      == RelayG(cfg, S, s) /\ S' = RelayF(cfg, S, s)
 ShutJoin(s)   == ShutJoinG(cfg, S, s) /\ \E k \in Culprits(cfg, S, s) : S' = ShutJoinF(cfg, S, s, k)
 ShutExpire(s) == ShutExpireG(cfg, S, s) /\ S' = ShutExpireF(cfg, S, s)
